@@ -40,6 +40,10 @@ inductive Call where
   | draw (d : Nat) | sel (k : Int)
   | spawn (p : Nat)
   | wait (d : Nat)                -- `yield env.timeout(d)`
+  | awaitAny (n : Nat)            -- `yield env.any_of([...n events...])`
+  | awaitTok                      -- `yield <reservation token>`
+  | awaitProc                     -- `yield env.process(...)`
+  | awaitReq                      -- `yield worker_thread.request()` / `.release(...)`
   | crash (e : Err)
   | bad                           -- an activation the kernel can never deliver in this state
   deriving DecidableEq, Repr, Inhabited
@@ -52,6 +56,10 @@ def Call.show : Call → String
   | .draw d => s!"draw {d}" | .sel k => s!"sel {k}"
   | .spawn p => s!"spawn p{p}"
   | .wait d => s!"wait {d}"
+  | .awaitAny n => s!"await any {n}"
+  | .awaitTok => "await tok"
+  | .awaitProc => "await proc"
+  | .awaitReq => "await req"
   | .crash e => s!"crash {e.name}"
   | .bad => "BAD"
 
